@@ -5,25 +5,11 @@ From BV Require Import Lib.FSFault13 Model.TransformApply13.
 Import ListNotations.
 Open Scope list_scope.
 
-(* the file system the try-block leaves when it completes / stops *)
+(* the file system the try-block (renames, then executable bits) leaves when it completes / stops *)
 Definition phase_fs (g : prog) (flt : fault) (f0 : fs) : fs :=
-  let '(f1, _, _, _, _) := run_phase (g_phase g) (kphase flt) (ferr flt) f0 [] false [] in f1.
+  let '(f1, _, _, _, _) := run_try g flt f0 in f1.
 
 (* ---------------------------------------------------------------- before the commit point *)
-
-Lemma run_phase_not_rollback : forall ops k e f j d tr f1 j1 d1 tr1 e0,
-  run_phase ops k e f j d tr = (f1, j1, d1, tr1, Some (XRollback e0)) -> False.
-Proof.
-  induction ops as [|op ops IH]; intros k e f j d tr f1 j1 d1 tr1 e0 H; simpl in H; [discriminate|].
-  destruct op as [skip from to | p x].
-  - destruct (tick k) as [fire k'].
-    destruct (if fire then Err e else rename from to f) as [f'|er].
-    + eapply IH; exact H.
-    + destruct (skip && is_enoent er); [eapply IH; exact H | discriminate].
-  - destruct (lookup f p); [|discriminate].
-    destruct (tick k) as [fire k'].
-    destruct (if fire then Err e else chmod p x f) as [f'|er]; [eapply IH; exact H | discriminate].
-Qed.
 
 Theorem phase_fault_restores : forall b g flt f0 inv0,
   wf f0 ->
@@ -34,19 +20,13 @@ Theorem phase_fault_restores : forall b g flt f0 inv0,
   exists x, o_exc (run_with_fault b g flt f0 inv0) = Some x /\ forall e, x <> XRollback e.
 Proof.
   intros b g flt f0 inv0 Hwf. unfold run_with_fault.
-  destruct (run_phase (g_phase g) (kphase flt) (ferr flt) f0 [] false [])
-    as [[[[f1 j] d] tr1] [x|]] eqn:Hrun.
-  - destruct (rollback j f1 tr1) as [[f2 tr2] [er|]] eqn:Hrb; simpl; intros _ Hd; subst d.
-    + exfalso.
-      destruct (run_phase_invariant (g_phase g) (kphase flt) (ferr flt) f0 [] false [] f0 f1 j false tr1 (Some x) Hwf eq_refl Hrun eq_refl) as (_ & Hu & _).
-      destruct (rollback_undoes _ _ _ tr1 Hu) as [tr' Hr']. congruence.
-    + destruct (run_phase_invariant (g_phase g) (kphase flt) (ferr flt) f0 [] false [] f0 f1 j false tr1 (Some x) Hwf eq_refl Hrun eq_refl) as (_ & Hu & _).
-      destruct (rollback_undoes _ _ _ tr1 Hu) as [tr' Hr'].
-      rewrite Hr' in Hrb. injection Hrb as <- _.
-      split; [reflexivity|]. split; [reflexivity|].
-      exists x. split; [reflexivity|].
-      (* the exception is the one raised in the try-block, never XRollback *)
-      intros e0 ->. eapply run_phase_not_rollback; exact Hrun.
+  destruct (run_try g flt f0) as [[[[f1 j] d] tr1] [x|]] eqn:Hrun.
+  - destruct (rollback j f1 tr1) as [[f2 tr2] [er|]] eqn:Hrb; simpl; intros _ Hd; subst d;
+      destruct (run_try_invariant g flt f0 f1 j tr1 x Hwf Hrun) as (Hu & Hx);
+      destruct (rollback_undoes _ _ _ tr1 Hu) as [tr' Hr']; [congruence|].
+    rewrite Hr' in Hrb. injection Hrb as <- _.
+    split; [reflexivity|]. split; [reflexivity|].
+    exists x. split; [reflexivity | exact Hx].
   - destruct (run_del false (g_deletions g) (kdel flt) (ferr flt) f1 tr1) as [[[f2 tr2] [er|]] k2];
       simpl; [discriminate|].
     destruct (run_fin g (kfin flt) (ferr flt) f2 tr2) as [[f3 tr3] [x|]]; simpl; discriminate.
@@ -59,27 +39,45 @@ Lemma run_phase_fault_stops : forall ops k e f j d tr,
   exists f1 j1 d1 tr1 x, run_phase ops (Some k) e f j d tr = (f1, j1, d1, tr1, Some x).
 Proof.
   induction ops as [|op ops IH]; intros k e f j d tr He Hk; simpl in Hk; [lia|].
-  destruct op as [skip from to | p x]; simpl.
-  - destruct k as [|k]; simpl.
-    + replace (skip && is_enoent e) with false
-        by (destruct e; try congruence; destruct skip; reflexivity).
-      repeat eexists.
-    + destruct (rename from to f) as [f'|er].
-      * apply IH; [exact He | lia].
-      * destruct (skip && is_enoent er); [apply IH; [exact He | lia] | repeat eexists].
-  - destruct (lookup f p); [|repeat eexists].
-    destruct k as [|k]; simpl; [repeat eexists|].
-    destruct (chmod p x f) as [f'|er]; [apply IH; [exact He | lia] | repeat eexists].
+  destruct op as [skip from to]; simpl.
+  destruct k as [|k]; simpl.
+  - replace (skip && is_enoent e) with false
+      by (destruct e; try congruence; destruct skip; reflexivity).
+    repeat eexists.
+  - destruct (rename from to f) as [f'|er].
+    + apply IH; [exact He | lia].
+    + destruct (skip && is_enoent er); [apply IH; [exact He | lia] | repeat eexists].
+Qed.
+
+Lemma run_chmods_fault_stops : forall cs k e f mj tr,
+  k < List.length cs ->
+  exists f2 mj2 tr2 x, run_chmods cs (Some k) e f mj tr = (f2, mj2, tr2, Some x).
+Proof.
+  induction cs as [|[p b] cs IH]; intros k e f mj tr Hk; simpl in Hk; [lia|]. simpl.
+  destruct (lookup f p); [|repeat eexists].
+  destruct k as [|k]; simpl; [repeat eexists|].
+  destruct (chmod p b f) as [f'|er]; [apply IH; lia | repeat eexists].
 Qed.
 
 Theorem phase_fault_raises : forall b g k e f0 inv0,
-  e <> ENOENT -> k < List.length (g_phase g) ->
+  e <> ENOENT -> k < List.length (g_phase g) + List.length (g_chmods g) ->
   o_stage (run_with_fault b g (FPhase k e) f0 inv0) = SPhase.
 Proof.
-  intros b g k e f0 inv0 He Hk. unfold run_with_fault. simpl kphase. simpl ferr.
-  destruct (run_phase_fault_stops (g_phase g) k e f0 [] false [] He Hk)
-    as (f1 & j1 & d1 & tr1 & x & Hr).
-  rewrite Hr. destruct (rollback j1 f1 tr1) as [[f2 tr2] [er|]]; reflexivity.
+  intros b g k e f0 inv0 He Hk.
+  assert (G : exists f1 j d tr x, run_try g (FPhase k e) f0 = (f1, j, d, tr, Some x)).
+  { unfold run_try. simpl kphase. simpl ferr.
+    destruct (Nat.ltb_spec k (List.length (g_phase g))) as [Hlt|Hge].
+    - destruct (run_phase_fault_stops (g_phase g) k e f0 [] false [] He Hlt)
+        as (f1 & j1 & d1 & tr1 & x & Hr).
+      rewrite Hr. repeat eexists.
+    - destruct (run_phase (g_phase g) (Some k) e f0 [] false []) as [[[[f1 j] d] tr1] [x|]];
+        [repeat eexists|].
+      unfold k_after. destruct (Nat.ltb_spec k (List.length (g_phase g))) as [?|_]; [lia|].
+      destruct (run_chmods_fault_stops (g_chmods g) (k - List.length (g_phase g)) e f1 [] tr1)
+        as (f2 & mj & tr2 & x & Hc); [lia|].
+      rewrite Hc. destruct (restore_modes mj f2 tr2) as [[f3 tr3] [er|]]; repeat eexists. }
+  destruct G as (f1 & j & d & tr & x & Hr). unfold run_with_fault. rewrite Hr.
+  destruct (rollback j f1 tr) as [[f2 tr2] [er|]]; reflexivity.
 Qed.
 
 (* ---------------------------------------------------------------- after the commit point *)
@@ -173,7 +171,7 @@ Proof.
   destruct (o_stage (run_with_fault b g flt f0 inv0)) eqn:Hs.
   - destruct (phase_fault_restores b g flt f0 inv0 Hwf Hs Hd) as (H1 & H2 & _). auto.
   - revert Hs. clear Hd. unfold run_with_fault, phase_fs.
-    destruct (run_phase (g_phase g) (kphase flt) (ferr flt) f0 [] false [])
+    destruct (run_try g flt f0)
       as [[[[f1 j] d] tr1] [x|]] eqn:Hrun.
     + destruct (rollback j f1 tr1) as [[f2 tr2] [er|]]; simpl; discriminate.
     + destruct (run_del false (g_deletions g) (kdel flt) (ferr flt) f1 tr1)
@@ -183,7 +181,7 @@ Proof.
         eapply run_del_visible; [exact Hh | exact Hdel].
       * destruct (run_fin g (kfin flt) (ferr flt) f2 tr2) as [[f3 tr3] [x|]]; simpl; discriminate.
   - revert Hs. clear Hd. unfold run_with_fault, phase_fs.
-    destruct (run_phase (g_phase g) (kphase flt) (ferr flt) f0 [] false [])
+    destruct (run_try g flt f0)
       as [[[[f1 j] d] tr1] [x|]] eqn:Hrun.
     + destruct (rollback j f1 tr1) as [[f2 tr2] [er|]]; simpl; discriminate.
     + destruct (run_del false (g_deletions g) (kdel flt) (ferr flt) f1 tr1)
@@ -194,7 +192,7 @@ Proof.
       unfold hidden_prog in Hh. repeat (apply andb_true_iff in Hh; destruct Hh as [Hh ?]).
       eapply run_del_visible; [exact Hh | exact Hdel].
   - revert Hs. clear Hd. unfold run_with_fault, phase_fs.
-    destruct (run_phase (g_phase g) (kphase flt) (ferr flt) f0 [] false [])
+    destruct (run_try g flt f0)
       as [[[[f1 j] d] tr1] [x|]] eqn:Hrun.
     + destruct (rollback j f1 tr1) as [[f2 tr2] [er|]]; simpl; discriminate.
     + destruct (run_del false (g_deletions g) (kdel flt) (ferr flt) f1 tr1)
@@ -258,8 +256,8 @@ Lemma fault_in_deletions_witness :
   o_inv o = x_inv_new w_x.
 Proof. vm_compute. repeat split. Qed.
 
-(* chmod is not journaled: tree { a }, transform: set_executability(True, a); new file z,
-   the rename of z into place fails *)
+(* executable bits: tree { a }, transform: set_executability(True, a); new executable file z.
+   Since 54fc383 the bits are set after all renames and put back when a later step fails. *)
 Definition c_fs : fs :=
   [([], Dir); ([".bzr"]%string, Dir); (ctl, Dir); (ctl ++ ["limbo"]%string, Dir);
    (ctl ++ ["pending-deletion"]%string, Dir); (ctl ++ ["limbo"; "new-2"]%string, File [90%N] false);
@@ -270,26 +268,27 @@ Definition c_x : xform :=
      x_removed := [];
      x_new_name := [("new-2", "z")]%string; x_new_parent := [("new-2", "new-0")]%string;
      x_new_contents := [("new-2"%string, false)]; x_new_id := ["new-2"]%string;
-     x_new_exec := [("new-1"%string, true)];
+     x_new_exec := [("new-1"%string, true); ("new-2"%string, true)];
      x_limbo_files := [("new-2"%string, ctl ++ ["limbo"; "new-2"]%string)];
      x_limbo_children_names := []; x_needs_rename := ["new-2"]%string; x_stale := [];
      x_final_paths := [("new-0", []); ("new-1", ["a"]); ("new-2", ["z"])]%string;
      x_inv_new := [[]; ["a"]; ["z"]]%string |}.
 
-Lemma exec_change_witness :
-  let o := apply_model c_x (FPhase 1 EIO) c_fs [[]; ["a"]%string] in
-  wf c_fs /\ o_stage o = SPhase /\ o_dirty o = true /\ o_fs o <> c_fs /\
-  lookup (o_fs o) ["a"]%string = Some (File [65%N] true).
+(* rename z, chmod a, chmod z raises: a gets its old mode back, z goes back to limbo *)
+Lemma exec_change_restored_witness :
+  let o := apply_model c_x (FPhase 2 EIO) c_fs [[]; ["a"]%string] in
+  wf c_fs /\ o_stage o = SPhase /\ o_dirty o = false /\ List.length (o_trace o) = 5 /\ o_fs o = c_fs /\
+  lookup (o_fs (apply_model c_x FNone c_fs [[]; ["a"]%string])) ["a"]%string = Some (File [65%N] true).
 Proof.
   split; [apply wfb_wf; vm_compute; reflexivity|].
-  vm_compute. repeat split; discriminate.
+  vm_compute. repeat split.
 Qed.
 
 (* a rename that replaces an existing file is not undone by the reverse rename *)
 Definition k_fs : fs := [([], Dir); (["a"]%string, File [65%N] false); (["b"]%string, File [66%N] false)].
 Definition k_prog : prog :=
   {| g_phase := [PRename false ["a"]%string ["b"]%string; PRename false ["nope"]%string ["c"]%string];
-     g_deletions := []; g_inv_new := []; g_fin_files := []; g_limbodir := ["l"]%string; g_deletiondir := ["p"]%string |}.
+     g_chmods := []; g_deletions := []; g_inv_new := []; g_fin_files := []; g_limbodir := ["l"]%string; g_deletiondir := ["p"]%string |}.
 
 Lemma clobbering_rename_witness :
   let o := run_with_fault false k_prog FNone k_fs [] in
